@@ -178,6 +178,17 @@ Section Consequent.
     | _ => do st <- load_run e load_init tokens; load_final st
     end.
 
+  (* Consequent.load / Rule.load on an object that is ALREADY loaded: `self.unload()` comes first and the result is
+     assigned, so the previous conclusions never survive: on success they are REPLACED (not extended), on an exception
+     the consequent is left unloaded.  Returned: the conclusions afterwards and the exception, if any. *)
+  Definition consequent_reload (e : engine T) (tokens : list string) (previous : list conclusion)
+    : list conclusion * option err :=
+    match load e tokens with
+    | Ok cs => (cs, None)
+    | Err x => ([], Some x)
+    end.
+  Definition consequent_unload (previous : list conclusion) : list conclusion := [].   (* self.conclusions.clear() *)
+
   (* =====================================================================================  modify *)
   (* for hedge in reversed(proposition.hedges): degree = hedge.hedge(degree) *)
   Definition apply_hedges (hs : list hedgex) (d : T) : T :=
